@@ -13,7 +13,18 @@ _spec2 = importlib.util.spec_from_file_location("translate_c15prod", os.path.joi
 _c15prod = importlib.util.module_from_spec(_spec2)
 _spec2.loader.exec_module(_c15prod)
 
+_spec_rc = importlib.util.spec_from_file_location("tools_releasecheck", os.path.join(_root, "tools", "releasecheck.py"))
+_rc = importlib.util.module_from_spec(_spec_rc)
+_spec_rc.loader.exec_module(_rc)
+
+
+def _release(ctx):
+    """thorough tier: the same cases through a --release build of the harness, identical observations required"""
+    return _rc.release_crosscheck(ctx, ['c03', 'c15'], PROP['n_thorough'])
+
+
 PROP = {'gen': [],
+ 'extra': [_release],
  'pre_coq': [_dfa.pre_coq, _c15prod.pre_coq],
  'harness_mods': ['c15'],
  'coq_props': ['theories/Props/C03.vo'],
